@@ -442,19 +442,21 @@ fn run_single_program(
 
             // capture output of last process if needed.
             if idx_cmd == pipes_count && options.capture_output {
-                if !stdout_redirected {
-                    if let Some(fds) = fds_capture_stdout {
-                        libs::close(fds.0);
+                // the capture pipes are closed in any case: a redirected
+                // stream just is not connected to its pipe.
+                if let Some(fds) = fds_capture_stdout {
+                    libs::close(fds.0);
+                    if !stdout_redirected {
                         libs::dup2(fds.1, 1);
-                        libs::close(fds.1);
                     }
+                    libs::close(fds.1);
                 }
-                if !stderr_redirected {
-                    if let Some(fds) = fds_capture_stderr {
-                        libs::close(fds.0);
+                if let Some(fds) = fds_capture_stderr {
+                    libs::close(fds.0);
+                    if !stderr_redirected {
                         libs::dup2(fds.1, 2);
-                        libs::close(fds.1);
                     }
+                    libs::close(fds.1);
                 }
             }
 
